@@ -157,4 +157,7 @@ row("C33", True, "E-CHOICE",
     "One open known finding (nested list types generated with one list level) is predicted by a classifier.")
 
 row("C30", False, "E-HIST", "", "", "check not built yet in this revision (design in DESIGN.md §6 C30: BFS over clone/drop/convert histories of Name and Node with a counting allocator); not claimed")
-row("C31", False, "E-CHOICE", "", "", "check not built yet in this revision (design in DESIGN.md §6 C31: loom exploration of the file-id counter behind hook H1); not claimed")
+row("C31", True, "E-CHOICE",
+    "loom (DPOR) exhaustive exploration of every interleaving of the real FileId::new on 2-4 threads through the cfg-guarded atomic seam (hook H1), unbounded and preemption-bounded; plus bounded exhaustive enumeration of the id packing lattice",
+    "Model A: the real FileId::new runs on 2-3 (thorough: up to 4) loom threads, 1-3 allocations each, with parser::NEXT backed by a loom atomic through hook H1; loom enumerates every interleaving (complete DPOR for the 2-thread and 3x1 models, preemption bound 2|3 otherwise), from the counter's initial value and from just below 2^63 (up to, never across, the wrap); in every execution all ids are pairwise distinct, unreserved and untagged. Model B: loom threads each parse + validate + introspect against a shared Arc<Valid<Schema>>; every interleaving must give the sequential results. Packing: every id with <= 3 bits set below bit 63 and every run of ones (41.7 k ids; thorough adds complements and 4-bit combinations) is allocated by the real parser and observed through heap-tagged and static-tagged Names (location, as_static_str, to_cloned_arc, clone, equality).",
+    "std OnceLock / Arc and triomphe::Arc internals are not intercepted (trusted base): model B warms every lazily initialised static up before exploring, so it decides interference through the id counter only; a free-running 8-thread first-use repetition is run as a labelled sampling supplement. FileId::reset (test-only) is not in the concurrent alphabet.")
